@@ -22,6 +22,7 @@ pub fn def() -> PropDef {
         block: 1,
         flavours: &["tokio"],
         outcome: None,
+        extra_profiles: &["C01", "C02", "C04", "C05", "C06", "C07", "C08", "C09", "C10", "C11", "C12", "C13", "C14", "C16", "C17"],
     }
 }
 
@@ -138,7 +139,7 @@ pub fn check(v: &View) -> Vec<Violation> {
                 out.push(violation(P, rule, kind, format!("actor {aidx} (restart {:?}, entry {:?}): {why}; callback #{i} {:?}/{} inc {} at seq {}", spec.restart, spec.entry, c.cb, c.id, c.inc, c.enter)));
             };
             // a callback that never exited must be the last one, unless a handler timeout abandoned it
-            if c.exit.is_none() && !last && !(c.cb.is_handler() && spec.timeout.is_some()) {
+            if c.exit.is_none() && !last && !(c.cb.is_handler() && spec.effective_timeout().is_some()) {
                 bad("callback-never-finished", "a later callback ran although this one had not returned".into());
             }
             match c.cb {
